@@ -1,4 +1,4 @@
-\* C12 -- quick tier: every subset of every class (PdiffIndex 2^14 x 2 shapes), single fields x record lists, pairs of fields; closed; props/c12.py sets EmitOff from the seed
+\* C12 -- quick tier: 4-field classes: every subset x 7 uniform shapes; single fields x record lists; pairs of fields (closed)
 CONSTANTS
   Tables <- DocTables
   Modes <- ModesQuick
@@ -9,6 +9,7 @@ CONSTANTS
 SPECIFICATION Spec
 INVARIANT TypeOK
 INVARIANT DumpTotal
+INVARIANT WidthTable
 INVARIANT DumpExplains
 INVARIANT RecordsRoundTrip
 INVARIANT SubFieldNames
